@@ -94,6 +94,12 @@ def ba_frombytes(it, ba, b):
         return
     n = bytes_len(it, b)
     if isinstance(n, K):
+        if isinstance(b, Term) and b.op == 'to_bytes' and isinstance(b.a[2], K) and b.a[2].v == 'big' and isinstance(b.a[3], K) \
+                and (irange(b.a[0]) is not None or (isinstance(b.a[0], Term) and b.a[0].op in ('mod2', '<<'))) and not isinstance(b.a[0], K):
+            # the bytes of an integer whose range is known: that integer, big-endian, in 8*n bits
+            for sg in int_segs(8 * n.v, bool(b.a[3].v), b.a[0]):
+                ba._push(sg)
+            return
         ba._push(Seg(8 * n.v, 'b', b))
         return
     raise Fail(f'frombytes of bytes with unknown length {b!r}')
@@ -264,7 +270,129 @@ def ba2int(it, x, signed):
             return s.val
         if s.kind == 'i' and signed:
             return s.val
+        if s.kind == 'i' and not signed:
+            return mod2(s.val, s.n)       # the unsigned reading of a signed field: v mod 2^n
     return Term('ba2int', K(x.desc()), K(bool(signed)), BAref(x.copy()))
+
+
+# ------------------------------------------------------------------ integers with known ranges
+def irange(v):
+    """(lo, hi) of an abstract integer when both are known, else None"""
+    if isinstance(v, K) and isinstance(v.v, int):
+        return (int(v.v), int(v.v))
+    b = getattr(v, 'bounds', None)
+    if isinstance(b, tuple) and len(b) == 2 and isinstance(b[0], int) and isinstance(b[1], int):
+        return b
+    return None
+
+
+def mod2(v, n):
+    """v mod 2^n (the unsigned reading of the n-bit two's complement image of v)"""
+    r = irange(v)
+    if r is not None and 0 <= r[0] and r[1] < (1 << n):
+        return v
+    if isinstance(v, K) and isinstance(v.v, int):
+        return K(v.v % (1 << n))
+    t = Term('mod2', v, K(n))
+    t.bounds = (0, (1 << n) - 1)
+    return t
+
+
+def bounded_binop(it, t, a, b):
+    """interval arithmetic and two's-complement identities on integers whose range is known (scenario values that 'fit the field', byte values, ...);
+    None when the operands are not of that kind"""
+    if isinstance(a, K) and isinstance(b, K):
+        return None
+    # sign fold of an unsigned reading:  (mod2(v, n) ^ 2^(n-1)) - 2^(n-1) = v   for v representable in n signed bits
+    if t is ast.BitXor:
+        for x, y in ((a, b), (b, a)):
+            if isinstance(x, Term) and x.op == 'mod2' and isinstance(y, K) and isinstance(y.v, int) and y.v == 1 << (x.a[1].v - 1):
+                r = Term('mod2x', x.a[0], x.a[1])
+                r.bounds = (0, (1 << x.a[1].v) - 1)
+                return r
+    if t is ast.Sub and isinstance(a, Term) and a.op == 'mod2x' and isinstance(b, K) and isinstance(b.v, int) and b.v == 1 << (a.a[1].v - 1):
+        return a.a[0]
+    if t is ast.Add and isinstance(a, Term) and a.op == 'mod2x' and isinstance(b, K) and isinstance(b.v, int) and b.v == -(1 << (a.a[1].v - 1)):
+        return a.a[0]
+    ra, rb = irange(a), irange(b)
+    if ra is None or rb is None or isinstance(a, (PInt,)) or isinstance(b, (PInt,)):
+        return None
+    (alo, ahi), (blo, bhi) = ra, rb
+    name = {ast.Add: '+', ast.Sub: '-', ast.Mult: '*', ast.FloorDiv: '//', ast.Mod: '%', ast.LShift: '<<', ast.RShift: '>>', ast.BitAnd: '&',
+            ast.BitOr: '|', ast.BitXor: '^'}.get(t)
+    if name is None:
+        return None
+
+    def mk(lo, hi):
+        if lo == hi:
+            return K(lo)
+        r = Term(name, a, b)
+        r.bounds = (lo, hi)
+        return r
+    bconst = blo == bhi
+    if bconst and ((blo == 0 and t in (ast.RShift, ast.LShift, ast.Add, ast.Sub, ast.BitOr, ast.BitXor)) or (blo == 1 and t in (ast.Mult, ast.FloorDiv))):
+        return a
+    if alo == ahi and ((alo == 0 and t in (ast.Add, ast.BitOr, ast.BitXor)) or (alo == 1 and t is ast.Mult)):
+        return b
+    if t is ast.RShift and bconst and blo >= 0:
+        return mk(alo >> blo, ahi >> blo)
+    if t is ast.LShift and bconst and blo >= 0:
+        return mk(alo << blo, ahi << blo)
+    if t is ast.Add:
+        return mk(alo + blo, ahi + bhi)
+    if t is ast.Sub:
+        return mk(alo - bhi, ahi - blo)
+    if t is ast.Mult:
+        c = [alo * blo, alo * bhi, ahi * blo, ahi * bhi]
+        return mk(min(c), max(c))
+    if t is ast.FloorDiv and bconst and blo > 0:
+        return mk(alo // blo, ahi // blo)
+    if t in (ast.BitAnd, ast.Mod):
+        for x, (xlo, xhi), y, (ylo, yhi) in ((a, ra, b, rb), (b, rb, a, ra)):
+            if t is ast.Mod and x is not a:
+                break
+            if ylo == yhi:
+                m = ylo if t is ast.BitAnd else ylo - 1
+                if m >= 0 and m & (m + 1) == 0 and (t is ast.BitAnd or ylo > 0):
+                    k = m.bit_length()
+                    if k == 0:
+                        return K(0)
+                    return mod2(x, k)
+                if t is ast.BitAnd and m >= 0:
+                    return mk(0, m)
+                if t is ast.Mod and ylo > 0:
+                    if 0 <= xlo and xhi < ylo:
+                        return x
+                    return mk(0, ylo - 1)
+        return None
+    if t in (ast.BitOr, ast.BitXor) and alo >= 0 and blo >= 0:
+        return mk(0, (1 << max(ahi.bit_length(), bhi.bit_length())) - 1)
+    return None
+
+
+def int_segs(n, signed, val):
+    """the segments of `val` written big-endian in n bits, normalised: a left shift is the value followed by zero bits, the unsigned
+    image of a signed value is that signed field"""
+    if isinstance(val, K) and isinstance(val.v, int):
+        v = int(val.v)
+        if signed:
+            if not -(1 << (n - 1)) <= v < (1 << (n - 1)):
+                raise RaiseEx('OverflowError', 'int too big to convert')
+            v &= (1 << n) - 1
+        elif not 0 <= v < (1 << n):
+            raise RaiseEx('OverflowError', 'int too big to convert')
+        return [Seg(n, 'k', format(v, f'0{n}b'))]
+    if isinstance(val, Term) and val.op == '<<' and isinstance(val.a[1], K) and not signed:
+        p, inner = val.a[1].v, val.a[0]
+        r = irange(inner)
+        if 0 < p < n and r is not None and 0 <= r[0] and r[1] < (1 << (n - p)):
+            return int_segs(n - p, False, inner) + [Seg(p, 'k', '0' * p)]
+    if isinstance(val, Term) and val.op == 'mod2' and val.a[1].v == n and not signed:
+        return [Seg(n, 'i', val.a[0])]
+    r = irange(val)
+    if r is not None and not signed and 0 <= r[0] and r[1] < (1 << n) and n > r[1].bit_length() and r[1].bit_length() > 0 and False:
+        pass
+    return [Seg(n, 'i' if signed else 'u', val)]
 
 
 def int2ba(it, value, length, signed):
@@ -281,7 +409,12 @@ def int2ba(it, value, length, signed):
             if not 0 <= v < (1 << n):
                 raise RaiseEx('OverflowError', 'unsigned integer not in range')
         return BA([Seg(n, 'k', format(v, f'0{n}b'))])
-    return BA([Seg(n, 'i' if signed else 'u', value)])
+    r = irange(value)
+    if r is not None:
+        lo, hi = (-(1 << (n - 1)), (1 << (n - 1)) - 1) if signed else (0, (1 << n) - 1)
+        if r[1] < lo or r[0] > hi:
+            raise RaiseEx('OverflowError', ('signed' if signed else 'unsigned') + ' integer not in range')
+    return BA(int_segs(n, signed, value))
 
 
 def ba_methods(it, ba, a, inst):
@@ -803,6 +936,9 @@ def pure_ext(it, dotted, args, kw, n):
             return it.cmp(_OPERATOR_CMP[nm](), args[0], args[1], n)
         if nm == 'getitem' and len(args) == 2:
             return it.getitem(args[0], args[1], n)
+        if nm == 'index' and len(args) == 1 and (isinstance(args[0], PInt) or irange(args[0]) is not None
+                                                  or (isinstance(args[0], Sym) and args[0].meta.get('ty') == 'int')):
+            return args[0]        # operator.index of an integer is that integer
         if nm in ('itemgetter', 'attrgetter') and args and all(isinstance(a, K) for a in args):
             keys = [a.v for a in args]
 
